@@ -193,7 +193,7 @@ func init() {
 					switch root {
 					case "models.Offset", "models.SnapshotMarker", "models.CheckpointDocument", "models.CheckpointDocumentCheckpoint", "models.CheckpointDocumentSnapshot":
 						// allowed only as initialisation of an object allocated in the same function
-						if a, isAlloc := fa.X.(*ssa.Alloc); isAlloc && a.Parent() == f {
+						if isFreshLocalObject(f, fa.X) {
 							continue
 						}
 						viol = append(viol, funcKey(f)+" writes a field of "+root+" outside its construction")
@@ -203,6 +203,40 @@ func init() {
 		}
 		return viol, n
 	}
+}
+
+// isFreshLocalObject: v is an object allocated in f, directly or read back from a local
+// variable of f that only ever holds objects allocated in f (x := &T{...}; x.f = ...).
+func isFreshLocalObject(f *ssa.Function, v ssa.Value) bool {
+	if a, ok := v.(*ssa.Alloc); ok {
+		return a.Parent() == f
+	}
+	ld, ok := v.(*ssa.UnOp)
+	if !ok || ld.Op.String() != "*" {
+		return false
+	}
+	cell, ok := ld.X.(*ssa.Alloc)
+	if !ok || cell.Parent() != f || cell.Referrers() == nil {
+		return false
+	}
+	stores := 0
+	for _, r := range *cell.Referrers() {
+		switch rv := r.(type) {
+		case *ssa.Store:
+			if rv.Addr != cell {
+				return false // the variable's address is stored somewhere
+			}
+			a, ok := rv.Val.(*ssa.Alloc)
+			if !ok || a.Parent() != f {
+				return false
+			}
+			stores++
+		case *ssa.UnOp, *ssa.DebugRef:
+		default:
+			return false
+		}
+	}
+	return stores > 0
 }
 
 func init() {
